@@ -93,15 +93,37 @@ pub fn decoders(out: &mut Out, lit: &[u8], pad: usize, rng: &mut Rng) {
         })
     });
     out.case("strdec", &["strict", &h, "Value object key"], &fmt_dec(r, false), nt);
-    let r = guarded(|| {
-        let mut it = sonic_rs::to_object_iter(&k[..]);
-        match it.next() {
-            Some(Ok((key, _))) => Ok((key.as_bytes().to_vec(), Some(matches!(key, Cow::Borrowed(_))))),
-            Some(Err(e)) => Err(e),
-            None => Ok((b"\x01none".to_vec(), None)),
+    // the lazy object iterator yields the first member as soon as key, colon and value are there: a
+    // "literal" with an interior closing quote (`"ab": 1, x"`) is then a different document for it than
+    // for the entry points that read the whole text; it is judged by the iterator suite (C12), not here
+    let single_literal = {
+        let mut i = 1usize;
+        let mut end = None;
+        while i < lit.len() {
+            match lit[i] {
+                b'\\' => i += 2,
+                b'"' => {
+                    end = Some(i);
+                    break;
+                }
+                _ => i += 1,
+            }
         }
-    });
-    out.case("strdec", &["strictflag", &h, "object iter key"], &fmt_dec(r, true), nt);
+        lit.first() != Some(&b'"') || end == Some(lit.len() - 1) || end.is_none()
+    };
+    if !single_literal {
+        out.count("iterator key case left to C12 (interior closing quote)");
+    } else {
+        let r = guarded(|| {
+            let mut it = sonic_rs::to_object_iter(&k[..]);
+            match it.next() {
+                Some(Ok((key, _))) => Ok((key.as_bytes().to_vec(), Some(matches!(key, Cow::Borrowed(_))))),
+                Some(Err(e)) => Err(e),
+                None => Ok((b"\x01none".to_vec(), None)),
+            }
+        });
+        out.case("strdec", &["strictflag", &h, "object iter key"], &fmt_dec(r, true), nt);
+    }
     let mut b: Vec<u8> = b"{\"s\":".to_vec();
     b.extend_from_slice(lit);
     b.push(b'}');
